@@ -255,14 +255,19 @@ def parseNodes (s : String) : Option (List Node) :=
 def optNat (s : String) : Option (Option Nat) :=
   if s = "-" then some none else s.toNat?.map some
 
-/-- a peer identity: `-` (none), `<k>` (server k), or `<k>f<v>`: the key of server k with the
-deprecated, self-announced `ID` field of server v — only the key is authenticated -/
+/-- a peer identity: `-` (none), `<k>` (server k), `<k>f<v>`: the key of server k with the deprecated,
+self-announced `ID` field of server v, `<k>a<v>`: the key of server k with the address, description and URL of
+server v — only the key is compared (`ServerIdentity.Equal`) -/
 def peer? (s : String) : Option (Option Nat) :=
-  match s.splitOn "f" with
-  | [k, v] => match k.toNat?, v.toNat? with
-    | some k, some _ => some (some k)
-    | _, _ => none
-  | _ => optNat s
+  let two (parts : List String) : Option (Option Nat) :=
+    match parts with
+    | [k, v] => match k.toNat?, v.toNat? with
+      | some k, some _ => some (some k)
+      | _, _ => none
+    | _ => none
+  if s.contains 'f' then two (s.splitOn "f")
+  else if s.contains 'a' then two (s.splitOn "a")
+  else optNat s
 
 def showDel (ds : List (List (Node × Msg))) : String :=
   let items := ds.flatten
